@@ -542,7 +542,7 @@ three refactorings each that carry one defect, restricted to the idioms of §9.4
 consumed generators, `reduce` pipelines, memos, template methods, helper objects, class-level tables). 12 candidates, all re-confirmed
 (`seeded/Hnn-k/`). First run against the checks as they stood after §9.4h: 8 reported by the check of the property the agent named, 2 only
 by another property's check (H02-1, H04-3), 2 ended in analysis errors in every check that follows the changed code (H01-3, H02-3). After the
-work below 11 are reported by the check of the property the agent named and one has no verdict.
+work below all 12 are reported by the check of the property the agent named.
 
 | seed | change (one line, from the agent's meta.json) | verdict | checks that report it | first rule |
 |---|---|---|---|---|
@@ -564,10 +564,13 @@ What the ninth round changed, and what it left:
   C16.R3m ("what one call leaves on the model is read by the next") and not by C20, whose rules evaluated `forward` on a fresh module. C20.R3
   has a call history now - evaluate, assign a new cost rate to the underlier, evaluate again on the same module: the second band depends
   on the new rate and on no other.
-* **Left as found**: H02-3 (`payoff()` as `reduce` over a memoised tuple `(payoff_fn, *self.clauses())`, the memo keyed by
-  the clause NAMES) ends every check that follows `payoff()` in an analysis error - a sequence of unknown length unpacked into a tuple
-  display has no model - so there is no verdict on it (exit 2), neither a miss nor a catch; C12.R3 judges every path of the three-clause
-  fallback now instead of demanding one.
+* **An amended clause** (H02-3: `payoff()` as `reduce` over a memoised tuple `(payoff_fn, *self.clauses())`, the memo keyed by the clause NAMES):
+  the rules that follow `payoff()` on a derivative with an unknown number of clauses stop - a sequence of unknown length unpacked into a
+  tuple display has no model - and at first that was all: analysis errors in ten checks, no verdict. C12 now judges its call histories (real
+  registries, concrete clauses) even when those rules have stopped, and the scripted histories have one more: 'amend' - evaluate the payoff,
+  register another clause under the SAME name, evaluate again; the second payoff applies the new clause. C12.R9 reports H02-3 on all six
+  derivative classes (together with the note that the analysis of the symbolic-clause rules is incomplete); C12.R3 judges every path of the
+  three-clause fallback instead of demanding one.
 
 """
 
@@ -576,7 +579,7 @@ def round9():
     r_ = rows_for(r"H\d\d-\d")
     if not r_:
         return
-    first9 = {"H01-3": "analysis errors in C02, C03, C06, C14, C15, C16, C17", "H02-1": "reported by C02, C12, C13, C16 only", "H04-3": "reported by C16 only", "H02-3": "analysis errors in 10 checks (unchanged: no verdict)"}
+    first9 = {"H01-3": "analysis errors in C02, C03, C06, C14, C15, C16, C17", "H02-1": "reported by C02, C12, C13, C16 only", "H04-3": "reported by C16 only", "H02-3": "analysis errors in 10 checks, no verdict"}
     t_ = "".join(f"| {sid} ({prop}) | {what} | {verdict}{' (first run: ' + first9[sid] + ')' if sid in first9 else ''} | {fired} | {rule} |\n" for sid, prop, what, verdict, fired, rule in r_)
     p = V / "DESIGN.md"
     s = p.read_text()
